@@ -67,7 +67,19 @@ pub fn json_str(s: &str) -> String {
   o
 }
 
-/// Run `f`, turning a panic of the library into `Err(message)`.
+thread_local! {
+  /// source location of the last panic on this thread (set by the hook installed in `silence_panics`)
+  static LAST_PANIC_AT: std::cell::RefCell<String> = std::cell::RefCell::new(String::new());
+}
+
+/// marker put in front of the message of a panic that is the harness' own arithmetic / indexing slip
+pub const HARNESS_PANIC: &str = "HARNESS-PANIC";
+
+/// Run `f`, turning a panic of the library into `Err(message)`.  An index-out-of-bounds, slice-range or
+/// arithmetic-overflow panic whose location is a source file of the harness itself (crate-relative `src/...`;
+/// the library's files are absolute paths under /repo, the standard library's under /rustc) is a bug of the
+/// workload, not an observation: its message is marked and `Log::violate` turns it into a harness error
+/// (INCONCLUSIVE) instead of a violation.
 pub fn guard<R>(f: impl FnOnce() -> R) -> Result<R, String> {
   match panic::catch_unwind(AssertUnwindSafe(f)) {
     Ok(r) => Ok(r),
@@ -79,13 +91,22 @@ pub fn guard<R>(f: impl FnOnce() -> R) -> Result<R, String> {
       } else {
         "panic".to_string()
       };
-      Err(msg)
+      let at = LAST_PANIC_AT.with(|c| c.borrow().clone());
+      let own_kind = msg.starts_with("index out of bounds") || msg.starts_with("attempt to ") || msg.starts_with("range ") || msg.starts_with("slice index") || msg.contains("out of range for slice");
+      if at.starts_with("src/") && own_kind {
+        Err(format!("{} at {}: {}", HARNESS_PANIC, at, msg))
+      } else {
+        Err(msg)
+      }
     }
   }
 }
 
 pub fn silence_panics() {
-  panic::set_hook(Box::new(|_| {}));
+  panic::set_hook(Box::new(|info| {
+    let at = info.location().map(|l| format!("{}:{}", l.file(), l.line())).unwrap_or_default();
+    LAST_PANIC_AT.with(|c| *c.borrow_mut() = at);
+  }));
 }
 
 static THREAD_CAP: std::sync::atomic::AtomicUsize = std::sync::atomic::AtomicUsize::new(16);
